@@ -166,6 +166,9 @@ func (f FixedLayout) Gap(class, mode string, doc []string) string {
 		eol = "\r\n"
 	}
 	d := ""
+	if mode == "blocktail" {
+		mode = "block" // (only the rapid layout puts a remark on the preceding line)
+	}
 	if mode == "block" {
 		d = docBlock(doc, eol)
 	}
@@ -396,6 +399,8 @@ func genDocMode(t *rapid.T, label string) string {
 		return "block"
 	case 2:
 		return "free"
+	case 3:
+		return "blocktail" // a doc block directly under a line that ends in a trailing remark
 	default:
 		return "none"
 	}
@@ -406,7 +411,7 @@ func genDocMode(t *rapid.T, label string) string {
 func GenIface(t *rapid.T, maxMembers int) *Iface {
 	i := &Iface{Name: genInterfaceName(t)}
 	i.DocMode = genDocMode(t, "idocmode")
-	if i.DocMode == "block" {
+	if i.DocMode == "block" || i.DocMode == "blocktail" {
 		i.Doc = genDocLines(t)
 	}
 	n := rapid.IntRange(1, maxMembers).Draw(t, "nmembers")
@@ -438,7 +443,7 @@ func GenIface(t *rapid.T, maxMembers int) *Iface {
 			}
 		}
 		m.DocMode = genDocMode(t, "docmode")
-		if m.DocMode == "block" {
+		if m.DocMode == "block" || m.DocMode == "blocktail" {
 			m.Doc = genDocLines(t)
 		}
 		i.Members = append(i.Members, m)
@@ -499,7 +504,7 @@ func (l RapidLayout) Gap(class, mode string, doc []string) string {
 		return l.ws(0, false, false)
 	case GapKwName:
 		switch mode {
-		case "block":
+		case "block", "blocktail":
 			return l.ws(1, false, false)
 		case "free":
 			return l.ws(1, true, true)
@@ -514,6 +519,14 @@ func (l RapidLayout) Gap(class, mode string, doc []string) string {
 				b.WriteString(l.ws(0, false, false) + "\n")
 			}
 			b.WriteString(l.ws(0, true, false))
+		case "blocktail":
+			if class == GapSep {
+				// the previous declaration's line ends in a remark; the block follows with no blank line in between
+				b.WriteString(l.ws(0, false, false))
+				b.WriteString("# a remark on the line above" + l.EOL)
+			}
+			b.WriteString(docBlockIndented(doc, l.EOL, ""))
+			b.WriteString(l.ws(0, false, false))
 		case "block":
 			if class == GapSep || rapid.Bool().Draw(l.T, "leadHasPrefix") {
 				// anything, ending in a blank line so earlier comments cannot merge with the block
